@@ -25,7 +25,7 @@ import (
 //	  W<cmd>.<key>.<len>.<class>.<clen>[.m]  write a value of length len and entropy class (z zeros, p periodic, r random, h header-like
 //	       prefix, x crafted: header magic+algorithm, no CRLF, then a valid stream); clen = length of its snappy stream; .m = the write is redirected once
 //	       -> w:raw | w:framed,short=<t|f>,decodes=<t|f>   (what reached the backend store for that value)
-//	  R<cmd>.<key>  read back through get | hget | hgetall | mget | getset  -> r:ok | r:bad<len> | r:nil
+//	  R<cmd>.<key>  read back through get | hget | hgetall | hscan (values nested one level down) | hmget | hvals | mget | getset  -> r:ok | r:bad<len> | r:nil
 //	  B<cmd>        a command disabled under compression -> b:rejected | b:sent
 type c13 struct{}
 
@@ -34,7 +34,7 @@ func init() { props["C13"] = func() hx.Prop { return c13{} } }
 func (c13) Rule() string {
 	return "write/read histories through the real request path and the real filter chain (real snappy) over an in-harness key-value backend: all nine write commands and their value positions, " +
 		"value lengths within +-8 of the threshold and up to 64 KiB, entropy classes (constant, periodic, random, header-like prefixes, crafted near-frames), enable/disable histories, redirected writes (second filter pass), " +
-		"read back through GET/HGET/HGETALL/MGET/GETSET. Non-trivial = value length within +-8 of the threshold, or a redirected write, or a read after disable; distinct by op line"
+		"read back through GET/HGET/HGETALL/HSCAN/HMGET/HVALS/MGET/GETSET. Non-trivial = value length within +-8 of the threshold, or a redirected write, or a read after disable; distinct by op line"
 }
 
 var c13Hdr = []byte("(P$\x00\r\n")
@@ -98,7 +98,8 @@ func (s *kvStore) apply(b *redis.RespValue) *redis.RespValue {
 		return &redis.RespValue{Type: redis.BulkString, Text: append([]byte{}, v...)}
 	}
 	k := string(arg(1))
-	switch strings.ToLower(string(arg(0))) {
+	cmd := strings.ToLower(string(arg(0)))
+	switch cmd {
 	case "set":
 		s.str[k] = arg(2)
 		return okv
@@ -133,7 +134,7 @@ func (s *kvStore) apply(b *redis.RespValue) *redis.RespValue {
 		return okv
 	case "hget":
 		return bulk(s.hash[k][string(arg(2))])
-	case "hgetall":
+	case "hgetall", "hscan", "hvals":
 		var fs []string
 		for f := range s.hash[k] {
 			fs = append(fs, f)
@@ -141,7 +142,20 @@ func (s *kvStore) apply(b *redis.RespValue) *redis.RespValue {
 		sort.Strings(fs)
 		out := &redis.RespValue{Type: redis.Array, Array: []redis.RespValue{}}
 		for _, f := range fs {
-			out.Array = append(out.Array, *bulk([]byte(f)), *bulk(s.hash[k][f]))
+			if cmd != "hvals" {
+				out.Array = append(out.Array, *bulk([]byte(f)))
+			}
+			out.Array = append(out.Array, *bulk(s.hash[k][f]))
+		}
+		if cmd == "hscan" {
+			// [cursor, [field, value, …]]: the values sit one level down
+			return &redis.RespValue{Type: redis.Array, Array: []redis.RespValue{*bulk([]byte("0")), *out}}
+		}
+		return out
+	case "hmget":
+		out := &redis.RespValue{Type: redis.Array, Array: []redis.RespValue{}}
+		for i := 2; i < len(b.Array); i++ {
+			out.Array = append(out.Array, *bulk(s.hash[k][string(arg(i))]))
 		}
 		return out
 	}
@@ -262,6 +276,12 @@ func (c13) Exec(op string) string {
 					args = [][]byte{[]byte("hget"), []byte(key), []byte("f1")}
 				case "hgetall":
 					args = [][]byte{[]byte("hgetall"), []byte(key)}
+				case "hscan":
+					args = [][]byte{[]byte("hscan"), []byte(key), []byte("0")}
+				case "hvals":
+					args = [][]byte{[]byte("hvals"), []byte(key)}
+				case "hmget":
+					args = [][]byte{[]byte("hmget"), []byte(key), []byte("nofield"), []byte("f1")}
 				case "getset":
 					args = [][]byte{[]byte("getset"), []byte(key), []byte("zz")}
 				default:
@@ -287,6 +307,24 @@ func (c13) Exec(op string) string {
 						if string(resp.Array[i].Text) == "f1" {
 							got = resp.Array[i+1].Text
 						}
+					}
+				case "hscan":
+					if len(resp.Array) == 2 {
+						in := resp.Array[1].Array
+						for i := 0; i+1 < len(in); i += 2 {
+							if string(in[i].Text) == "f1" {
+								got = in[i+1].Text
+							}
+						}
+					}
+				case "hmget":
+					if len(resp.Array) == 2 {
+						got = resp.Array[1].Text
+					}
+				case "hvals":
+					// values in field order: f1 is the last field of these scripts (hmset also writes f0)
+					if n := len(resp.Array); n >= 1 {
+						got = resp.Array[n-1].Text
 					}
 				}
 				want, ok := written[key]
@@ -333,7 +371,7 @@ func (c13) Gen(r *hx.Run) {
 	readsFor := func(w string) []string {
 		switch w {
 		case "hset", "hmset", "hsetnx":
-			return []string{"hget", "hgetall"}
+			return []string{"hget", "hgetall", "hscan", "hmget", "hvals"}
 		}
 		return []string{"get", "mget", "getset"}
 	}
